@@ -178,6 +178,7 @@ func runC17(c *Ctx) {
 
 	// R17.3 ReadOnly field: stores and Mapper literals
 	roStores := 0
+	roParam := map[*ssa.Function]int{} // constructor -> index of the parameter stored into ReadOnly
 	for _, pk := range p.KetoPackages() {
 		for _, fn := range p.KetoFuncs(core.RelPath(pk.PkgPath)) {
 			core.Instrs(fn, func(_ *ssa.BasicBlock, _ int, ins ssa.Instruction) {
@@ -201,8 +202,18 @@ func runC17(c *Ctx) {
 				k, isConst := st.Val.(*ssa.Const)
 				okStore := isConst && k.Value != nil && k.Value.String() == "true" && strings.HasSuffix(name, ".ReadOnlyMapper")
 				_, fresh := fa.X.(*ssa.Alloc)
+				// a constructor shared by the two providers: the flag is a parameter of it, and what
+				// each caller on a read path passes is judged under R17.5
+				if par, isPar := st.Val.(*ssa.Parameter); isPar && fresh && fn.Parent() == nil {
+					for i, q := range fn.Params {
+						if q == par {
+							roParam[fn] = i
+							okStore = true
+						}
+					}
+				}
 				r.Check(okStore && fresh, "R17.3", name, "store Mapper.ReadOnly", p.Pos(ins.Pos()),
-					"ReadOnly is set to the constant true on a fresh Mapper inside ReadOnlyMapper",
+					"ReadOnly is set on a fresh Mapper to the constant true inside ReadOnlyMapper, or to a parameter of a constructor whose callers are judged under R17.5",
 					"Mapper.ReadOnly is written outside ReadOnlyMapper's literal (or with a non-constant): the read-only guarantee of R17.4 no longer follows from construction")
 			})
 		}
@@ -286,7 +297,29 @@ func runC17(c *Ctx) {
 				bad = append(bad, fmt.Sprintf("reaches write statement %s (%s): %s", core.ObjName(ws[0].Callee), p.Pos(ws[0].Call.Pos()), er.Path(f)))
 			}
 			// a Mapper literal on a read path other than ReadOnlyMapper's
-			if core.IsKeto(core.FuncPkg(f)) && !strings.HasSuffix(core.FuncName(f), ".ReadOnlyMapper") {
+			if pi, isCtor := roParam[f]; isCtor {
+				// every call of the shared constructor that a read path can take passes the constant true
+				for _, in := range g.In[f] {
+					if _, reached := er.Parent[in.Caller]; !reached && in.Caller != e.Fn {
+						continue
+					}
+					if skip(in) {
+						continue
+					}
+					okCall := false
+					if ci, isCall := in.Site.(ssa.CallInstruction); isCall && in.Kind == "static" && ci.Common().StaticCallee() == f {
+						args := ci.Common().Args
+						if pi < len(args) {
+							if k, isK := args[pi].(*ssa.Const); isK && k.Value != nil && k.Value.String() == "true" {
+								okCall = true
+							}
+						}
+					}
+					if !okCall {
+						bad = append(bad, "R17.3 builds a Mapper that is not read-only (the constructor "+core.FuncName(f)+" is not called with the constant true from "+core.FuncName(in.Caller)+"): "+er.Path(f))
+					}
+				}
+			} else if core.IsKeto(core.FuncPkg(f)) && !strings.HasSuffix(core.FuncName(f), ".ReadOnlyMapper") {
 				core.Instrs(f, func(_ *ssa.BasicBlock, _ int, ins ssa.Instruction) {
 					if a, ok := ins.(*ssa.Alloc); ok {
 						if pt, ok := a.Type().(*types.Pointer); ok && core.IsNamed(pt.Elem(), relPkg, "Mapper") {
